@@ -325,6 +325,17 @@ def run_op(case, seed, cache=None):
                 solo_ = fresh_model(seed % 1000 + 5)
                 for _ in range(2):
                     solo_.step()
+            # ... and the same training repeated after a LARGER model of the class was trained in this process gives the same samples
+            with np.errstate(all="ignore"):
+                big_ = cls(experiment_space=ExperimentSpace.from_screen(screen), n_embedding_dimensions=case["D"] + 4)
+                if observed is not None:
+                    big_.add_observations(observed)
+                sampling.sample(model=big_, results=ThetaHolder(n_thetas=1), seed=seed + 1, n_chains=1, chain_index=0, n_burnin=0, thin=1)
+                again_ = cls(experiment_space=ExperimentSpace.from_screen(screen), n_embedding_dimensions=case["D"])
+                if observed is not None:
+                    again_.add_observations(observed)
+                h2_ = sampling.sample(model=again_, results=ThetaHolder(n_thetas=3), seed=seed, n_chains=2, chain_index=1, n_burnin=1, thin=1)
+            require(canon_thetas(h2_) == canon_thetas(h), op + ".independent_of_earlier_trainings", "the same training (data, seed, chain) gives other posterior samples after a model with more embedding dimensions was trained in the same process")
             require(state(a_) == state(solo_), op + ".independent_of_other_live_models", "a model stepped in turn with another live model of its class (each with its own seeded generator) reaches another state than the same model stepped alone")
             return canon_thetas(h)
         # ---- command line steps with --seed
